@@ -532,6 +532,13 @@ static JanetAssembleResult janet_asm1(JanetAssembler *parent, Janet source, int 
         return result;
     }
 
+    /* Guard against unbounded recursion through nested closures */
+    {
+        int32_t depth = 0;
+        for (JanetAssembler *p = parent; p != NULL; p = p->parent) depth++;
+        janet_asm_assert(&a, depth < JANET_RECURSION_GUARD, "recursed too deeply");
+    }
+
     janet_asm_assert(&a,
                      janet_checktype(s, JANET_STRUCT) ||
                      janet_checktype(s, JANET_TABLE),
